@@ -48,6 +48,7 @@ def main():
         for f in os.listdir(evbak):  # evidence of the registered checks must come from the unchanged tree
             shutil.copy2(os.path.join(evbak, f), os.path.join(ROOT, "evidence", f))
         shutil.rmtree(evbak, ignore_errors=True)
+        sh(f"cd {ROOT} && /venv/bin/python tools/translate.py")  # regenerate Gen/ from the restored tree
     assert sh("git -C /repo status --porcelain").stdout.strip() == "", "/repo not clean after revert"
     json.dump(out, open(os.path.join(ROOT, "seeded", sid, f"eval_{tier}.json"), "w"), indent=1)
     return 0
